@@ -3,6 +3,7 @@ package server
 import (
 	"bytes"
 	"context"
+	"encoding/binary"
 	"errors"
 	"github.com/aldas/go-modbus-client/packet"
 )
@@ -48,11 +49,16 @@ func (m *ModbusTCPAssembler) handle(ctx context.Context, frame []byte) []byte {
 
 	resp, err := m.Handler.Handle(ctx, p)
 	if err != nil {
+		// the exception is addressed to the request it answers
+		reply := packet.ErrorResponseTCP{Code: packet.ErrServerFailure}
 		var target *packet.ErrorParseTCP
 		if errors.As(err, &target) {
-			return target.Bytes()
+			reply.Code = target.Packet.Code
 		}
-		return packet.NewErrorParseTCP(packet.ErrUnknown, err.Error()).Bytes()
+		reply.TransactionID = binary.BigEndian.Uint16(frame[0:2])
+		reply.UnitID = frame[6]
+		reply.Function = frame[7]
+		return reply.Bytes()
 	}
 
 	return resp.Bytes()
